@@ -215,7 +215,10 @@ func (obj JsonWebSignature) Verify(verificationKey interface{}) ([]byte, error) 
 		alg := SignatureAlgorithm(headers.Alg)
 		err := verifier.verifyPayload(input, signature.Signature, alg)
 		if err == nil {
-			return obj.payload, nil
+			// Return a copy (as GetAuthData does): the caller may overwrite what it gets back.
+			out := make([]byte, len(obj.payload))
+			copy(out, obj.payload)
+			return out, nil
 		}
 	}
 
